@@ -169,9 +169,9 @@ func (a *application) terminate(pid gen.PID, reason error) {
 
 	switch a.mode {
 	case gen.ApplicationModePermanent:
-		state := atomic.SwapInt32(&a.state, int32(gen.ApplicationStateStopping))
-		if state == int32(gen.ApplicationStateStopping) {
-			// already in stopping
+		if atomic.CompareAndSwapInt32(&a.state, int32(gen.ApplicationStateRunning),
+			int32(gen.ApplicationStateStopping)) == false {
+			// already in stopping (or stopped by a member that terminated concurrently)
 			break
 		}
 		a.node.Log().Info("application %s (%s) will be stopped due to termination of %s with reason: %s", a.spec.Name, a.mode, pid, reason)
@@ -187,9 +187,9 @@ func (a *application) terminate(pid gen.PID, reason error) {
 		}
 		a.node.Log().Info("application %s (%s) will be stopped due to termination of %s with reason: %s", a.spec.Name, a.mode, pid, reason)
 
-		state := atomic.SwapInt32(&a.state, int32(gen.ApplicationStateStopping))
-		if state == int32(gen.ApplicationStateStopping) {
-			// already in stopping
+		if atomic.CompareAndSwapInt32(&a.state, int32(gen.ApplicationStateRunning),
+			int32(gen.ApplicationStateStopping)) == false {
+			// already in stopping (or stopped by a member that terminated concurrently)
 			break
 		}
 		a.reason = reason
